@@ -192,6 +192,16 @@ def run_digitize(cfg):
         b = b[::-1].copy()
     xs = numpy.concatenate([b, b - 0.5, b + 0.5]).astype(numpy.float32)
     try:
+        # concrete differential run of the COMPILED path on edges that are not exact in float32 and query
+        # points that are (the float32 neighbours of each edge): the stored thresholds must be the float64 edges
+        b2 = b + 0.1
+        x32 = numpy.unique(numpy.concatenate([numpy.float32(b2), numpy.nextafter(numpy.float32(b2), numpy.float32(1e9)), numpy.nextafter(numpy.float32(b2), numpy.float32(-1e9))])).astype(numpy.float32)
+        tree2 = td.digitize2tree(b2, right=True)
+        got2 = tree2.predict(x32.reshape(-1, 1))
+        exp2 = numpy.digitize(x32.astype(numpy.float64), b2, right=True)
+        if not numpy.array_equal(got2, exp2):
+            i = int(numpy.nonzero(got2 != exp2)[0][0])
+            viol.append(harness.violation("digitize/compiled-tree", f"digitize/compiled-tree-vs-numpy.digitize/{'increasing' if asc else 'decreasing'}", cfg, {}, dict(bins=b2.tolist(), x=float(x32[i]), tree=float(got2[i]), numpy_digitize=int(exp2[i]), note="x is exactly representable in float32; the edges are not"), True))
         real = td.digitize2tree(b, right=True)
         rp = real.predict(xs.reshape(-1, 1))
         mp = numpy.array([float(v) for v in _digitize_model(td, b).predict([[float(v)] for v in xs])])
@@ -400,10 +410,20 @@ def _real_tree(cfg, ths):
 
 
 def replay_struct(cfg, inputs, label):
-    ts = loader.load("mltree.tree_structure", with_ext=True)
+    """first with the model's exact values (a constant such as -2 may matter), then on order-isomorphic integers"""
     k = len(cfg["feats"])
     raw = [inputs.get(f"t_{i}", Fraction(i)) for i in range(k)] + [inputs.get("x_0", Fraction(0)), inputs.get("x_1", Fraction(0))]
-    rm = _rank_map(raw)
+    exact = {v: float(v) for v in raw}
+    if all(float(numpy.float32(f)) == f for f in exact.values()):
+        ok, obs = _replay_struct(cfg, raw, exact, label)
+        if ok:
+            return ok, obs
+    return _replay_struct(cfg, raw, _rank_map(raw), label)
+
+
+def _replay_struct(cfg, raw, rm, label):
+    ts = loader.load("mltree.tree_structure", with_ext=True)
+    k = len(cfg["feats"])
     ths = [rm[v] for v in raw[:k]]
     try:
         cl, X = _real_tree(cfg, ths)
